@@ -110,9 +110,6 @@ func translate(pos uint64, from, to uint8) uint64 {
 }
 
 func (m *MapForest) GetHash(pos uint64) Hash {
-	if !inForest(pos, m.NumLeaves, TreeRows(m.NumLeaves)) {
-		return Hash{}
-	}
 	if m.TotalRows != TreeRows(m.NumLeaves) {
 		pos = translate(pos, TreeRows(m.NumLeaves), m.TotalRows)
 	}
